@@ -59,6 +59,7 @@ def cases(seed, tier):
 
 
 def install():
+    probe.enable_recall("C02.recall", every=5)
     rs.instrument_all()
 
 
